@@ -254,7 +254,7 @@ func firstDiff(a, b string) (string, string, string) {
 			key := ""
 			if len(f) > 0 {
 				key = strings.TrimSuffix(f[0], ":")
-				if len(f) > 1 && (key == "global" || key == "string" || key == "attrs") {
+				if len(f) > 1 && (key == "global" || key == "string") {
 					// the generator names globals <block><n>_<what>
 					name := strings.TrimSuffix(f[1], ":")
 					key += ":" + strings.TrimRight(strings.SplitN(name, "_", 2)[0], "0123456789")
@@ -339,10 +339,15 @@ func runMain(args []string) {
 		}
 	}
 	ndiv := 0
+	seenKey := map[string]bool{}
 	report := func(where string, i int64, a, b string) {
 		p := genProgram(*seed, i)
 		key, x, y := firstDiff(a, b)
 		ndiv++
+		if seenKey[key] {
+			return
+		}
+		seenKey[key] = true
 		hx.Emit(map[string]any{"kind": "diverge", "where": where, "i": i, "key": key, "tags": p.Tags, "program": p.Src, "opts": p.Opts,
 			"line_a": trunc(x, 600), "line_b": trunc(y, 600), "seed": *seed})
 	}
@@ -366,10 +371,15 @@ func runMain(args []string) {
 		idx = append(idx, i)
 	}
 	sort.Slice(idx, func(a, b int) bool { return idx[a] < idx[b] })
-	reported := map[string]bool{}
+	fetched := 0
 	for _, i := range idx {
 		for c := 1; c < *k; c++ {
 			if results[c].hashes[i] != results[0].hashes[i] {
+				if fetched >= 12 {
+					ndiv++
+					break
+				}
+				fetched++
 				// fetch two full transcripts from two fresh processes
 				var ts []string
 				for tries := 0; tries < 6 && len(ts) < 2; tries++ {
@@ -383,11 +393,7 @@ func runMain(args []string) {
 					}
 				}
 				if len(ts) == 2 {
-					key, _, _ := firstDiff(ts[0], ts[1])
-					if !reported[key] || ndiv < 5 {
-						reported[key] = true
-						report("process", i, ts[0], ts[1])
-					}
+					report("process", i, ts[0], ts[1])
 				} else {
 					ndiv++
 					hx.Emit(map[string]any{"kind": "diverge", "where": "process", "i": i, "key": "unreproduced", "program": genProgram(*seed, i).Src,
